@@ -1,6 +1,7 @@
 use crate::report::{Evidence, Report};
 
 pub mod c01;
+pub mod c02;
 pub mod c04;
 pub mod c06;
 pub mod c12;
@@ -10,6 +11,7 @@ pub mod c14;
 pub fn lookup(id: &str) -> Option<fn(&Report, bool) -> Evidence> {
     Some(match id {
         "C01" => c01::run,
+        "C02" => c02::run,
         "C04" => c04::run,
         "C06" => c06::run,
         "C12" => c12::run,
